@@ -100,3 +100,15 @@ fn c06_live_version__live_version() {
     assert!(v == -1 || r == v);
     assert!(v != -1 || r == 0);
 }
+
+/// [C07.role-codec] the role word of a node (AtomicUsize) decodes to StartingUp / Primary / Secoundary for 0 / 1 / 2 and `as usize` gives the word back.  All values 0..=2 (any other
+/// value is unreachable!() in the real code: the election unit proves no such value is ever stored) => complete
+#[kani::proof]
+fn c07_role_codec__cluster_role() {
+    let v: usize = kani::any();
+    kani::assume(v <= 2);
+    let r = ClusterRole::from(v);
+    assert!(r as usize == v);
+    match v { 0 => assert!(r == ClusterRole::StartingUp), 1 => assert!(r == ClusterRole::Primary), _ => assert!(r == ClusterRole::Secoundary) }
+    kani::cover!(v == 2);
+}
